@@ -169,6 +169,8 @@ Definition w_id (t : list cp) : list cp := t.
 Definition w_dict (t : list cp) : list (N * N) := [].
 Definition w_re (t : list cp) : option (N * N) := None.
 Definition w_gen := n_generate is_ascii_alnum w_lower w_fold w_id w_dict w_re w_id.
+(* the witness is the model's own output, so that vm_compute closes the whole statement *)
+Definition w_get (o : option snippet) : snippet := match o with Some s => s | None => mkSnip [] [] end.
 
 (* F9: "zz abcdefgh yy", term "abcdefgh", max_num_chars = 5 -> a fragment of 8 characters *)
 Definition f9_text : list cp := [122;122;32;97;98;99;100;101;102;103;104;32;121;121].
@@ -176,7 +178,7 @@ Definition f9_terms : list (list cp * N) := [([97;98;99;100;101;102;103;104], 1)
 Theorem C19_fragment_length_refuted :
   exists sn, w_gen TSimple [] f9_terms 5 f9_text = Some sn /\ 5 < N.of_nat (length (sn_fragment sn)) /\
              f9_class f9_text (simple_tokenizer is_ascii_alnum f9_text) (sn_fragment sn) 5 = true.
-Proof. eexists. vm_compute. repeat split; reflexivity. Qed.
+Proof. exists (w_get (w_gen TSimple [] f9_terms 5 f9_text)). vm_compute. repeat split; reflexivity. Qed.
 
 (* F10: n-gram 2..3 on "abcabc": highlighted() = [0..2, 0..3, 1..3, ...] is not disjoint *)
 Definition f10_text : list cp := [97;98;99;97;98;99].
@@ -185,7 +187,7 @@ Theorem C19_highlighted_disjoint_refuted :
   exists sn, w_gen (TNgram 2 3 false) [] f10_terms 100 f10_text = Some sn /\
              ranges_disjointb 0 (sn_hl sn) = false /\ ranges_spec (sn_fragment sn) (collapse (sn_hl sn)) = true /\
              f10_class (ngram_spec 2 3 false f10_text) = true.
-Proof. eexists. vm_compute. repeat split; reflexivity. Qed.
+Proof. exists (w_get (w_gen (TNgram 2 3 false) [] f10_terms 100 f10_text)). vm_compute. repeat split; reflexivity. Qed.
 
 (* F21 (fixed in /repo, commit 4e83b48fb): n-gram 1..3 on "abcd", term "abc", max_num_chars = 2 used to give
    the fragment "ab" with the highlight 0..3 and a panic in to_html.  Regression witness on the model that
@@ -197,7 +199,7 @@ Example f21_regression :
              sn_fragment sn = [97;98;99] /\ sn_hl sn = [(0, 3)] /\
              to_html SNIPPET_DEFAULT_PREFIX SNIPPET_DEFAULT_POSTFIX sn
              = Some (SNIPPET_DEFAULT_PREFIX ++ [97;98;99] ++ SNIPPET_DEFAULT_POSTFIX).
-Proof. eexists. vm_compute. repeat split; reflexivity. Qed.
+Proof. exists (w_get (w_gen (TNgram 1 3 false) [] f21_terms 2 f21_text)). vm_compute. repeat split; reflexivity. Qed.
 
 (* F22: the facet tokenizer leaves offsets at 0..0 while the token text is a facet path *)
 Definition f22_text : list cp := [97;0;98].
@@ -221,7 +223,7 @@ Example snippet_and_html :
              to_html SNIPPET_DEFAULT_PREFIX SNIPPET_DEFAULT_POSTFIX sn
              = Some ([38;108;116;59] ++ SNIPPET_DEFAULT_PREFIX ++ [97] ++ SNIPPET_DEFAULT_POSTFIX ++ [38;103;116;59;32;38;97;109;112;59;32]
                      ++ SNIPPET_DEFAULT_PREFIX ++ [97] ++ SNIPPET_DEFAULT_POSTFIX).
-Proof. eexists. vm_compute. split; reflexivity. Qed.
+Proof. exists (w_get (w_gen TSimple [FLower] [([97], 1)] 20 [60;97;62;32;38;32;97])). vm_compute. repeat split; reflexivity. Qed.
 
 Print Assumptions C19_boundary_is_char_boundary.
 Print Assumptions C19_token_offsets.
